@@ -143,6 +143,16 @@ func workerExec(line string) (res wres) {
 }
 
 func workerLoop() {
+	// The node runs with Go's default 1 GB goroutine stack. The worker caps it at 384 MB so that a runaway recursion dies (and its
+	// traceback unwinds) in a third of the time; the deepest recursion of the explored paths that DOES end - Serialize unrolling an
+	// undetected cycle up to its 1 MiB output limit - needs between 128 and 256 MB (measured). The cap matters for one class only:
+	// BuildParamToNative on an acyclic value nested deeper than ~8*10^5 is reported here, the node dies from ~2.1*10^6 levels on
+	// (measured once with C12_MAXSTACK_MB=1024).
+	stackMB := 384
+	if mb, err := strconv.Atoi(os.Getenv("C12_MAXSTACK_MB")); err == nil && mb > 0 {
+		stackMB = mb
+	}
+	debug.SetMaxStack(stackMB << 20)
 	// a hard cap on the address space: an allocation the node could only serve by eating the machine is a `fatal error: out of memory` here
 	syscall.Setrlimit(syscall.RLIMIT_AS, &syscall.Rlimit{Cur: 12 << 30, Max: 12 << 30})
 	in := bufio.NewReaderSize(os.Stdin, 1<<24)
@@ -431,7 +441,7 @@ func main() {
 		Gen:     Gen,
 		Exec:    Exec,
 		Corpus:  corpus(),
-		N:       map[string]int{"quick": 6000, "thorough": 60000},
+		N:       map[string]int{"quick": 6000, "thorough": 40000},
 		Isolate: true,
 		Timeout: 500 * time.Second,
 	})
